@@ -55,6 +55,10 @@ def fixed_cases(tier):
     for attr in VALUES:
         for mask in range(1, 16):
             out.append({"k": "table", "attr": attr, "mask": mask})
+    # overlapping groups configured with different attributes: both must take effect on the rules in both groups
+    for g1, g2 in (("case", "case::keyword"), ("case", "case::name"), ("case", "case::label"), ("structure", "structure::optional")):
+        for a1, a2 in itertools.permutations(sorted(VALUES), 2):
+            out.append({"k": "overlap", "g1": g1, "g2": g2, "a1": a1, "a2": a2})
     _base_rules()
     dep = _BASE["dep"]
     for i in range(0, len(dep), 8):
@@ -101,6 +105,8 @@ def run_case(case, tier):
         return _table(case, res)
     if case["k"] == "bad_ids":
         return _bad_ids(case, res)
+    if case["k"] == "overlap":
+        return _overlap(case, res)
     return _stack(case, res, tier)
 
 
@@ -148,6 +154,41 @@ def _table(case, res):
         res["nontrivial"] = ["t%s%d_%d" % (attr, mask, i) for i in range(n)]
     if not bad:
         res["sample"] = {"kind": "table", "attr": attr, "levels": lv, "values_by_level": dict(zip(LEVELS, vals)), "rules_checked": n}
+    return res
+
+
+def _overlap(case, res):
+    rules = _base_rules()
+    g1, g2, a1, a2 = case["g1"], case["g2"], case["a1"], case["a2"]
+    v1, v2 = VALUES[a1][0], VALUES[a2][1]
+    n = 0
+    for order in (0, 1):
+        grp = {g1: {a1: v1}, g2: {a2: v2}} if order == 0 else {g2: {a2: v2}, g1: {a1: v1}}
+        conf = {"rule": {"group": grp}, "severity": SEVDEF}
+        try:
+            rl, c, cla = _configure(None, [conf], "x.vhd")
+        except Exception as e:
+            fr = vsgapi.innermost_vsg_frame(e)
+            res["failures"].append({"sig": {"kind": "configure_crashes", "attr": a1 + "+" + a2, "levels": "group+group", "exc": type(e).__name__}, "detail": {"where": "%s:%s" % (fr[0], fr[1])}, "case": case})
+            continue
+        defaults = {r.unique_id: r for r in rules}
+        bad = []
+        for r in rl.rules:
+            if r.deprecated or r.proposed:
+                continue
+            d = defaults[r.unique_id]
+            e1 = v1 if g1 in r.groups else _attr_value(d, a1)
+            e2 = v2 if g2 in r.groups else _attr_value(d, a2)
+            n += 1
+            if _attr_value(r, a1) != e1 or _attr_value(r, a2) != e2:
+                bad.append((r.unique_id, (_attr_value(r, a1), e1), (_attr_value(r, a2), e2)))
+        if bad:
+            res["failures"].append({"sig": {"kind": "overlapping_groups_not_both_applied", "attr": a1 + "+" + a2}, "detail": {"groups": [g1, g2], "order": order, "n_rules": len(bad), "examples": bad[:3]}, "case": case})
+    res["evals"] = n
+    res["labels"]["overlap_rule_checks"] = n
+    res["nontrivial"] = ["o%s%s%s%s_%d" % (g1, g2, a1, a2, i) for i in range(n)]
+    if not res["failures"]:
+        res["sample"] = {"kind": "overlap", "groups": [g1, g2], "attrs": [a1, a2], "rules_checked": n}
     return res
 
 
